@@ -27,6 +27,9 @@ func (g *Gen) strLit(e *Emitter, content string) Term {
 	c := e.declare(fmt.Sprintf("str$lit%d", id), SInt)
 	g.strLits[content] = c
 	g.strLitOrder = append(g.strLitOrder, content)
+	q := e.quiet
+	e.quiet = 0
+	defer func() { e.quiet = q }()
 	e.assertRaw(eq(g.strLen(e, c), intT(int64(len(content)))))
 	if len(content) <= 96 {
 		for i := 0; i < len(content); i++ {
